@@ -80,9 +80,12 @@ func init() {
 func init() {
 	c13files := []string{"internal_fees/c13_price.go", "internal_fees/c13_roundtrip.go"}
 	register(PropSpec{ID: "C13", Harnesses: []HarnessSpec{
+		{Name: "window", Pkg: "internal/fees", Files: c13files, Entry: "VerifC13Window", IntMode: true, Reach: []string{"sum-saturates"},
+			Outside: []string{"window slots other than the `symbolicWindowSlots` symbolic ones are zero"}},
 		{Name: "exact", Pkg: "internal/fees", Files: c13files, Entry: "VerifC13Exact", IntMode: true,
 			Assumptions: []string{"target >= 1 and change denominator >= 1 (zero is a configuration error: division by zero)", "elapsed seconds < 2^40"},
-			Outside:     []string{"window slots other than the newest `symbolicWindowSlots` are zero"}},
+			Reach: []string{"idle-decay"},
+			Outside:     []string{"the price harness keeps one symbolic window slot plus the parent consumption (the window arithmetic for all slots/elapsed times is the `window` harness)", "elapsed times other than the `sinceKinds` representatives {1, >10 symbolic, 0, 10} in the price harness"}},
 		{Name: "monotone", Pkg: "internal/fees", Files: c13files, Entry: "VerifC13Mono", IntMode: true,
 			Assumptions: []string{"target >= 1 and change denominator >= 1"}},
 		{Name: "roundtrip", Pkg: "internal/fees", Files: c13files, Entry: "VerifC13RoundTrip"},
